@@ -93,8 +93,11 @@ func checkEntry(t ev.TB, test string, c *entryCase) {
 			ev.Fail(t, test, c, "%s of a terminating program with a live context returned %v\n%s", name, err, c.Program)
 			return
 		}
-	case c.Inf || c.How == "pre":
-		// the program cannot finish (or must not start): only the context's error is right
+	case c.Inf:
+		// the program cannot finish: only the context's error is right. (A
+		// terminating program may have finished by the time the cancelled
+		// context is looked at - also with a context cancelled before the call:
+		// "or the run's own result if it had already finished".)
 		if err == nil || !(errors.Is(err, context.Canceled) || errors.Is(err, context.DeadlineExceeded)) {
 			ev.Fail(t, test, c, "%s returned %v, not the context's error (context cancelled by %q)\n--- program ---\n%s", name, err, c.How, c.Program)
 			return
